@@ -23,7 +23,9 @@ enum Ev {
     GetNode(usize, u64),
     GetEdge(usize, u64),
     List,
-    /// drop the manager, reopen the directory, recover this tenant
+    /// drop the manager (and its RocksDB handle) and open the directory again
+    Reopen,
+    /// PersistenceManager::recover for this tenant
     Recover(usize),
 }
 
@@ -79,14 +81,34 @@ fn open(dir: &std::path::Path, names: &[String]) -> PersistenceManager {
 
 /// `via_pm`: writes go through PersistenceManager::persist_* (WAL + storage + usage) instead of
 /// PersistentStorage directly. Reads always go to PersistentStorage / recover.
-fn run_case(out: &mut Out, names: &[String], evs: &[Ev], via_pm: bool) {
-    let idx = out.next_index();
-    if !out.wants(idx) {
-        out.skip();
-        return;
+struct Counts(Vec<(String, u64)>);
+impl Counts {
+    fn count(&mut self, k: &str) {
+        self.0.push((k.to_string(), 1));
     }
+    fn count_n(&mut self, k: &str, n: u64) {
+        self.0.push((k.to_string(), n));
+    }
+}
+struct CaseResult {
+    gallina: String,
+    human: String,
+    bad: Option<String>,
+    counts: Counts,
+}
+struct Spec {
+    names: Vec<String>,
+    evs: Vec<Ev>,
+    via_pm: bool,
+}
+
+fn run_case(names: &[String], evs: &[Ev], via_pm: bool) -> CaseResult {
+    let mut counts = Counts(Vec::new());
+    let out = &mut counts;
     let human = format!("names={:?} via_pm={} events={:?}", names, via_pm, evs);
-    let tmp = tempfile::Builder::new().prefix("c17-").tempdir().expect("tempdir");
+    // a memory-backed directory when there is one (RocksDB's fsyncs dominate the run otherwise)
+    let base = if std::path::Path::new("/dev/shm").is_dir() { std::path::PathBuf::from("/dev/shm") } else { std::env::temp_dir() };
+    let tmp = tempfile::Builder::new().prefix("c17-").tempdir_in(base).expect("tempdir");
     let mut pm = Some(open(tmp.path(), names));
     let mut or = Oracle { nodes: BTreeMap::new(), edges: BTreeMap::new() };
     let mut stamp: u64 = 100;
@@ -240,11 +262,13 @@ fn run_case(out: &mut Out, names: &[String], evs: &[Ev], via_pm: bool) {
                 }
                 Err(e) => flag(&mut bad, format!("list_persisted_tenants failed: {}", e)),
             },
-            Ev::Recover(t) => {
+            Ev::Reopen => {
                 // a real reopen: the old manager (and its RocksDB handle) must be gone first
                 drop(pm.take());
                 pm = Some(open(tmp.path(), names));
-                let m = pm.as_ref().unwrap();
+                out.count("reopened");
+            }
+            Ev::Recover(t) => {
                 match m.recover(&names[*t]) {
                     Ok((ns, es)) => {
                         let on: Vec<_> = ns.iter().map(node_obs).collect();
@@ -292,10 +316,7 @@ fn run_case(out: &mut Out, names: &[String], evs: &[Ev], via_pm: bool) {
         out.count("empty_name");
     }
     out.count_n("events", evs.len() as u64);
-    let i = out.case(g_list(g), human.clone(), true);
-    if let Some(b) = bad {
-        out.fail(i, &human, &b, None);
-    }
+    CaseResult { gallina: g_list(g), human, bad, counts }
 }
 
 /// reads of everything for every tenant, listing, then reopen + recover for every tenant
@@ -310,10 +331,14 @@ fn final_reads(n: usize, ids: &[u64]) -> Vec<Ev> {
         }
     }
     v.push(Ev::List);
+    v.push(Ev::Reopen);
     for t in 0..n {
         v.push(Ev::Recover(t));
     }
     v.push(Ev::List);
+    for t in 0..n {
+        v.push(Ev::ScanNodes(t));
+    }
     v
 }
 
@@ -329,6 +354,7 @@ fn main() {
                 through PersistentStorage directly in the other half. Distinct by case text."
         .to_string();
 
+    let mut specs: Vec<Spec> = Vec::new();
     // ---- fixed scope: pairs of special names, fixed history ----
     let mut k = 0u64;
     for a in SPECIAL {
@@ -358,7 +384,7 @@ fn main() {
             evs.push(Ev::List);
             evs.push(Ev::ScanNodes(0));
             evs.push(Ev::ScanNodes(1));
-            run_case(&mut out, &names, &evs, k % 2 == 0);
+            specs.push(Spec { names, evs, via_pm: k % 2 == 0 });
         }
     }
 
@@ -403,7 +429,44 @@ fn main() {
             });
         }
         evs.extend(final_reads(nn, &ids));
-        run_case(&mut out, &names, &evs, r.chance(1, 2));
+        let via_pm = r.chance(1, 2);
+        specs.push(Spec { names, evs, via_pm });
+    }
+
+    // ---- run (cases are independent: temp dir each), in parallel, then record in order ----
+    let wanted: Vec<bool> = (0..specs.len()).map(|i| out.wants(i as u64)).collect();
+    let workers = std::thread::available_parallelism().map(|n| n.get()).unwrap_or(4).min(12);
+    let next = std::sync::atomic::AtomicUsize::new(0);
+    let results: Vec<std::sync::Mutex<Option<CaseResult>>> = (0..specs.len()).map(|_| std::sync::Mutex::new(None)).collect();
+    std::thread::scope(|sc| {
+        for _ in 0..workers {
+            sc.spawn(|| loop {
+                let i = next.fetch_add(1, std::sync::atomic::Ordering::SeqCst);
+                if i >= specs.len() {
+                    break;
+                }
+                if wanted[i] {
+                    let sp = &specs[i];
+                    *results[i].lock().unwrap() = Some(run_case(&sp.names, &sp.evs, sp.via_pm));
+                }
+            });
+        }
+    });
+    for r in results {
+        match r.into_inner().unwrap() {
+            None => {
+                out.skip();
+            }
+            Some(c) => {
+                for (k, n) in &c.counts.0 {
+                    out.count_n(k, *n);
+                }
+                let i = out.case(c.gallina, c.human.clone(), true);
+                if let Some(b) = c.bad {
+                    out.fail(i, &c.human, &b, None);
+                }
+            }
+        }
     }
     out.finish();
 }
